@@ -1,8 +1,10 @@
 import PngVerif.Driver.C14
 import PngVerif.Driver.C01
+import PngVerif.Driver.C08
 import PngVerif.Driver.C15
 import PngVerif.Driver.C20
 import PngVerif.Driver.Framing
+import PngVerif.Driver.Reader
 /-!
 `pngmodel`: line-protocol driver.  One case per input line, one canonical answer per output line,
 `bad-op` for anything that does not parse (never a default).  The functions called here are the
@@ -14,9 +16,11 @@ def answer (line : String) : String :=
   match line.trimAscii.toString.splitOn " " with
   | "c14" :: args => c14 args
   | "c01" :: args => c01 args
+  | "c08" :: args => c08 args
   | "c15" :: args => c15 args
   | "c20" :: args => c20 args
   | "frm" :: args => frm args
+  | "rdr" :: args => rdr args
   | _ => "bad-op"
 
 partial def loop (hin hout : IO.FS.Stream) : IO Unit := do
